@@ -542,6 +542,8 @@ def _w_open(path, flags, *a, **k):
     def thunk():
         fd = R.open(path, flags, *a, **k)
         w.fds[fd] = w.rel(path)
+        if flags & (os.O_CREAT | os.O_TRUNC):
+            w.stamp(path)
         return fd
     mut = bool(flags & (os.O_WRONLY | os.O_RDWR | os.O_CREAT | os.O_TRUNC))
     return w.syscall('os.open', path, thunk, mutating=mut)
@@ -748,7 +750,10 @@ def _w_bopen(file, mode='r', *a, **k):
     writing = any(c in mode for c in 'wax+')
 
     def thunk():
-        return FileProxy(w, R.bopen(file, mode, *a, **k), os.path.abspath(os.fspath(file)), writing)
+        fp_ = FileProxy(w, R.bopen(file, mode, *a, **k), os.path.abspath(os.fspath(file)), writing)
+        if writing:
+            w.stamp(os.path.abspath(os.fspath(file)))
+        return fp_
     return w.syscall('open', file, thunk, mutating=writing, detail=mode)
 
 
@@ -766,6 +771,7 @@ def _w_mkstemp(suffix=None, prefix=None, dir=None, text=False):
             except FileExistsError:
                 continue
             w.fds[fd] = w.rel(name)
+            w.stamp(name)           # a file that is never closed (process kill) must not carry the real clock either
             return fd, os.path.abspath(name)
     return w.syscall('mkstemp', dir, thunk, mutating=True)
 
